@@ -5,24 +5,24 @@ sys.path.insert(0, '/verif')
 from props import PROPS
 m = json.load(open('/verif/MANIFEST.json'))
 level_text = {
- "C09": "seeded search over sender interleavings, read fragmentations, socket-buffer sizes, stalls and connection faults for two real muxers, plus Byzantine frames from a raw peer; byte-exact oracle on delivery and on the wire",
+ "C09": "seeded search over sender interleavings, read fragmentations, socket-buffer sizes, stalls, connection faults and a receiver unregistering in mid-stream for two real muxers, plus Byzantine frames and silences inside a frame (frame-smuggling construction) from a raw peer; byte-exact oracle on delivery and on the wire",
  "C10": "seeded search over message sizes (12 B..3 MiB), batching, concurrent senders, slow handlers and fragmentation through two real protocol engines; byte-exact oracle at the receiving handler and on the wire",
  "C11": "seeded search over adversarial message sequences and schedules against a real engine for every repository state map and role; oracle is the declared state-map data replayed as a deterministic merge",
  "C12": "seeded search over conforming (pipelined) conversations for every state map, checked against the plan (executable model): wire order, exactly-once, per-endpoint state sequence, no error; plus forbidden first messages",
  "C13": "seeded search over fast senders / slow consumers / bounded socket buffers with a probe on pending bytes and an independent byte count, oversize and endless-incomplete arms",
  "C14": "seeded search over (state map, role, state, dwell) with exact simulated time: a timeout error must appear iff the dwell exceeded the declared timeout; never in the initial placement or timeout-free states",
- "C15": "seeded search over (API call, adversarial responder behaviour, end mode, schedule) with liveness stated as 'returned within 2 simulated hours after the connection ended', task-leak and timer-leak detection",
+ "C15": "seeded search over (API call, adversarial responder behaviour incl. a peer that stops reading under large outbound payloads, connection kind incl. a node-to-client server, end mode, schedule) with liveness stated as 'returned within 2 simulated hours after the connection ended', task-leak and timer-leak detection",
  "C16": "seeded walks of independent specification automata through the real engine with the repository's state maps and codecs: accept/reject language equality on everything explored; triple coverage reported",
- "C17": "seeded search over connection configurations, negotiated versions and diffusion flags with a raw peer sending request/response segments; model of negotiated roles and of version-enabled protocols",
+ "C17": "seeded search over connection configurations (NtN, NtC, DMQ), negotiated versions and diffusion flags with a raw peer sending request/response segments of eleven mini-protocols; model of negotiated roles and of version-enabled protocols",
  "C18": "seeded search over pairs of version tables, magics, query flags, option combinations and schedules; independent negotiation function as oracle on both sides' conclusions",
  "C19": "seeded search over AcceptVersion messages (version x data shape x magic) from a raw responder against every client configuration",
- "C21": "seeded search over server histories, pipeline limits, callback speeds, stop points and schedules between a real chain-sync client and server; callback sequence, outstanding-request bound and clean stop",
- "C22": "same runs as C21: per roll-forward identity of block type/bytes (NtC) and header era/hash (NtN) for real blocks of seven eras over the simulated wire",
- "C23": "seeded search over batch shapes (matching, other, none, empty, several) and served ranges with real blocks; GetBlock must return the requested block or fail, never hang",
+ "C21": "seeded search over server histories, pipeline limits, callback speeds, stop points (clean, and while a callback is in flight) and schedules between a real chain-sync client and server, without and with a real BlockPipeline; callback/apply sequence, outstanding-request bound and clean stop",
+ "C22": "same runs as C21 (scenario chainsync): per roll-forward identity of block type/bytes (NtC) and header era/hash (NtN) for real blocks of eight eras, and for the same blocks with the header's protocol major version patched to 1..12, over the simulated wire",
+ "C23": "seeded search over batch shapes (matching, other block, other block of the same slot, right slot with another hash, none, empty, several) and served ranges with real blocks; GetBlock must return the requested block or fail, never hang",
  "C24": "seeded search over request rounds and reply counts; the acknowledgement window is recomputed from the wire by an independent model; out-of-range counts from API and from a raw peer",
  "C25": "seeded search over concurrent callers of one shared client against tagging servers; every return value must carry its own request's tag (uniqueness and real-time order)",
  "C42": "seeded search over worker counts, buffer sizes, submitter interleavings, slow apply, decode failures and Stop at arbitrary instants; apply-once/in-order, results exactly once, clean stop",
- "C43": "same runs: a WaitForDrain that returned nil is compared with the apply log: every block submitted before the wait must have finished, none applied afterwards",
+ "C43": "same runs: a WaitForDrain that returned nil is compared with the apply log: every block submitted before the wait must have finished, none applied afterwards; plus the chain-sync client's drain before a roll-backward callback (scenario chainsync-pipeline)",
  "C44": "same runs with Submit contexts that expire under backpressure: later successful submissions must still be applied",
  "C46": "seeded search over interleavings at every lock/atomic of the shared authenticator; recorded invoke/return history checked for linearizability against a sequential authentication model (porcupine)",
 }
@@ -47,6 +47,6 @@ for pid in sorted(PROPS):
 m["checks"] = checks
 m["engines"][0]["serves_properties"] = sorted(PROPS)
 m["hooks"]["baseline_off_cmd"] = "cd /verif && . ./env.sh && cd /repo && \"$VERIF_GO\" test -vet=off -count=1 -timeout 25m ./..."
-m["notes"] = "20 properties claimed (C09-C19, C21-C25, C42-C44, C46), 26 not applicable (pure functions). No hooks in /repo: checks instrument a scratch copy at check time. Nine genuine defects were repaired by fix: commits in /repo, three are recorded in known_findings.json (DESIGN.md 12)."
+m["notes"] = "20 properties claimed (C09-C19, C21-C25, C42-C44, C46), 26 not applicable (pure functions). No hooks in /repo: checks instrument a scratch copy at check time. 18 fix: commits in /repo repair the genuine defects the checks found (DESIGN.md 16); known_findings.json holds only fixed: entries, so no check prints KNOWN-FINDING on the current tree."
 json.dump(m, open('/verif/MANIFEST.json', 'w'), indent=1)
 print(len(checks), "checks")
